@@ -153,11 +153,14 @@ txsLoop:
 		}
 		// Start executing the transaction
 		snap := p.am.Snapshot()
+		poolGas := *gp
 
 		log.Debug("applyTx", "hash", tx.Hash(), "from", tx.From())
 		gas, err := p.applyTx(gp, header, tx, uint(len(selectedTxs)), common.Hash{}, restApplyTime)
 		if err != nil {
 			p.am.RevertToSnapshot(snap)
+			// Give back the gas which the discarded transaction bought. It pays nothing, so it must not take the room of the next transactions
+			*gp = poolGas
 			if err == types.ErrGasLimitReached {
 				// block is full
 				log.Info("Not enough gas for further transactions", "gp", gp, "lastTxGasLimit", tx.GasLimit())
